@@ -88,22 +88,34 @@ def gen():
     o.append("")
     # ---- the two arms of `step` whose panic behaviour the model cannot see from types
     flat = re.sub(r"\s+", " ", msrc)
-    arms = {}
-    for v in ("Next", "Last"):
-        mm = re.search(r"Instruction::" + v + r" => (.*?)(?=,? Instruction::)", flat)
-        if not mm:
-            raise Fail(f"{MACH}: step: arm `Instruction::{v} =>` not found")
+    ok_arm = r"\{? ?return Err\(self\.err\(MachineErrorType::InvalidInstruction\)\);? ?\}?"
+    mm = re.search(r"Instruction::Next \| Instruction::Last => (.*?)(?=,? Instruction::)", flat)
+    if mm:
         arm = mm.group(1).strip().rstrip(",").strip()
         if arm == "todo!()":
-            arms[v] = True
-        elif re.fullmatch(r"\{? ?return Err\(self\.err\(MachineErrorType::InvalidInstruction\)\);? ?\}?", arm):
-            arms[v] = False
+            todo = True
+        elif re.fullmatch(ok_arm, arm):
+            todo = False
         else:
-            raise Fail(f"{MACH}: step: unrecognised arm `Instruction::{v} => {arm}`")
-    if arms["Next"] != arms["Last"]:
-        raise Fail(f"{MACH}: step: Next and Last arms differ; the model treats them alike")
+            raise Fail(f"{MACH}: step: unrecognised arm `Instruction::Next | Instruction::Last => {arm}`")
+    else:
+        arms = {}
+        for v in ("Next", "Last"):
+            mm = re.search(r"Instruction::" + v + r" => (.*?)(?=,? Instruction::)", flat)
+            if not mm:
+                raise Fail(f"{MACH}: step: arm `Instruction::{v} =>` not found")
+            arm = mm.group(1).strip().rstrip(",").strip()
+            if arm == "todo!()":
+                arms[v] = True
+            elif re.fullmatch(ok_arm, arm):
+                arms[v] = False
+            else:
+                raise Fail(f"{MACH}: step: unrecognised arm `Instruction::{v} => {arm}`")
+        if arms["Next"] != arms["Last"]:
+            raise Fail(f"{MACH}: step: Next and Last arms differ; the model treats them alike")
+        todo = arms["Next"]
     o.append(f"/-- `Instruction::Next` / `Instruction::Last` are `todo!()` in `step` ({MACH}) -/")
-    o.append(f"def nextLastTodo : Bool := {'true' if arms['Next'] else 'false'}")
+    o.append(f"def nextLastTodo : Bool := {'true' if todo else 'false'}")
     o.append("")
     mm = re.search(r"Instruction::MStructSet\(n\) => \{ let n: usize = n\.into\(\); let mut field_name_value_pairs = ([^;]+);", flat)
     if not mm:
